@@ -37,7 +37,8 @@ def snapshot(ms):
     for c in ms.clusters:
         snap["clusters"].append({
             "members_obj": c.member_points, "members": list(c.member_points),
-            "arrays": {name: (getattr(c, name), None if getattr(c, name) is None else np.array(getattr(c, name), copy=True))
+            "arrays": {name: (getattr(c, name), None if (getattr(c, name) is None or np.asarray(getattr(c, name)).dtype == object)
+                              else np.array(getattr(c, name), copy=True))
                        for name in ("computed_covariance", "empirical_covariance", "train_inverse", "stacked_data_mean", "inverse_covariance")},
             "log_determinant": c.log_determinant,
         })
@@ -91,7 +92,7 @@ def expected_plan(sizes, m, spreads):
     return needy, cap, sum(cap) < len(needy)
 
 
-def check_repopulation(labels, K, m, spreads, seed, t=None, repopulate=None):
+def check_repopulation(labels, K, m, spreads, seed, t=None, repopulate=None, model=None):
     """Run the implementation on one case and compare with the model.  Returns observations."""
     if repopulate is None:
         from fast_ticc import cluster_maintenance
@@ -101,7 +102,8 @@ def check_repopulation(labels, K, m, spreads, seed, t=None, repopulate=None):
     for v in labels:
         sizes[v] += 1
     needy, cap, expect_error = expected_plan(sizes, m, spreads)
-    ms = build_model(labels, K, m, spreads)
+    # `model`: an existing state of a lineage (produced by earlier phases) instead of a freshly built one
+    ms = model if model is not None else build_model(labels, K, m, spreads)
     snap = snapshot(ms)
     random.seed(seed)
     rng_state = random.getstate()
@@ -181,12 +183,13 @@ def check_repopulation(labels, K, m, spreads, seed, t=None, repopulate=None):
         remaining -= take
     if any(u >= 2 for u in usage):
         obs["donor_twice"] = True
-    # same generator state -> same result
+    # same generator state -> same result (a freshly built state with the same labels and spreads must agree as well)
     ms2 = build_model(labels, K, m, spreads)
     random.setstate(rng_state)
     out2 = repopulate(ms2)
     if [int(v) for v in out2.point_labels] != new:
-        raise Violation("repopulation is not a function of (state, Python RNG state): two runs from the same RNG state differ")
+        raise Violation("repopulation is not a function of (labels, spreads, Python RNG state): a freshly built state with the same "
+                        "labels and spreads gives a different result from the same RNG state")
     obs["usage"] = usage
     obs["new_labels"] = new
     obs["out"] = out
